@@ -4,6 +4,7 @@ import Aiorpcx.C04.Roundtrip
 import Aiorpcx.C04.Loose
 import Aiorpcx.C04.ClassifyProofs
 import Aiorpcx.C04.Table
+import Aiorpcx.C04.Conn
 import Aiorpcx.Facts.C04
 /-!
 # C04 — the JSON-RPC codec is loss-free and conforms to each version's wire format
